@@ -105,6 +105,8 @@ pub struct SzxOpts {
     pub ay: Option<(u8, [u8; 16])>,
     pub mouse: Option<u8>,
     pub lowercase_ids: bool,
+    /// chFe of the SPCR chunk (last value written to port 0xFE); None = the border colour, MIC and EAR low
+    pub fe: Option<u8>,
 }
 
 impl Default for SzxOpts {
@@ -118,6 +120,7 @@ impl Default for SzxOpts {
             ay: None,
             mouse: None,
             lowercase_ids: false,
+            fe: None,
         }
     }
 }
@@ -142,7 +145,7 @@ pub fn szx(d: &MachineDesc, o: &SzxOpts) -> Vec<u8> {
     z.push((o.eilast as u8) | ((o.halted as u8) << 1));
     z.extend(0u16.to_le_bytes()); // memptr
     chunks.push(chunk(b"Z80R", &z));
-    chunks.push(chunk(b"SPCR", &[d.border, d.latch, 0, d.border, 0, 0, 0, 0]));
+    chunks.push(chunk(b"SPCR", &[d.border, d.latch, 0, o.fe.unwrap_or(d.border), 0, 0, 0, 0]));
     let pages: Vec<usize> = if d.m128 { (0..8).collect() } else { vec![5, 2, 0] };
     for p in pages {
         let mut data = vec![];
